@@ -125,6 +125,14 @@ INNER = {None: "{e}", "genexpr": "next(({e}) for _ in (0,))", "lambda": "(lambda
          "setcomp": "list({{({e}) for _ in (0,)}})[0]", "dictcomp": "{{0: ({e}) for _ in (0,)}}[0]"}
 
 
+RECURSION = 3
+
+
+def extra_frames(inner):
+    """how many frames the creating expression adds on top of the helper chain"""
+    return RECURSION + 1 if inner == "recursive" else (1 if inner_frame(inner) else 0)
+
+
 def inner_frame(inner):
     """the frame (by code name) the creating expression runs in, inside h1 - None if it runs in h1's own frame (comprehensions
     are inlined since Python 3.12, PEP 709)"""
@@ -143,7 +151,20 @@ def build_chain(depth, files, offsets, expr, inner=None):
     for k in range(1, depth + 1):
         pad = "\n" * offsets[k - 1]
         last = k == depth
-        if k == 1:
+        if k == 1 and inner == "recursive":
+            # a recursive helper whose recursive call and creating expression share ONE source line: RECURSION + 1 identical
+            # frames (same function, file and line) on top of h1
+            core = f"(env.__setattr__('probed', probe()), {expr})[1]"
+            src = (pad + f"def rec(env, probe, n):\n    return rec(env, probe, n - 1) if n else {core}\n"
+                         "def h1(env, probe):\n"
+                         "    try:\n"
+                         f"        env.result = rec(env, probe, {RECURSION})\n"
+                         "    except BaseException as e:\n"
+                         "        env.error = e\n"
+                   + ("    finally:\n        env.done.release()\n" if last else ""))
+            static += [("rec", files[0], offsets[0] + 2)] * (RECURSION + 1)
+            line = offsets[0] + 5
+        elif k == 1:
             whole = INNER[inner].format(e=f"(env.__setattr__('probed', probe()), {expr})[1]")
             src = (pad + "def h1(env, probe):\n"
                          "    try:\n"
@@ -416,8 +437,20 @@ SITE_FN = {"planCall": "call", "planGather": "gather", "planUnpack": "unpack", "
 ANGLE = ["<string>", "<stdin>", "<doctest user_mod[3]>", "<generated pipeline>"]
 
 
-def gen_case(rng, name, depth, threaded, ipython=False, angle=False, inner=None):
+# a package NEXT TO uberjob whose directory name begins with "uberjob" (uberjob_contrib/...): user code like any other
+SIBLING = ["@sibling:_contrib/helpers.py", "@sibling:-extras/build.py"]      # resolved against the library's directory when used
+
+
+def resolve_file(f):
+    return UBERJOB_DIR.rstrip("/") + f[len("@sibling:"):] if f.startswith("@sibling:") else f
+
+
+def gen_case(rng, name, depth, threaded, ipython=False, angle=False, inner=None, sibling=False):
     files = [rng.choice(FILES) for _ in range(depth)]
+    if sibling:
+        files[0] = rng.choice(SIBLING)
+        if depth >= 3:
+            files[2] = rng.choice(SIBLING)
     if ipython and depth >= 2:
         files[rng.randint(1, depth - 1)] = IPY
     if angle:
@@ -440,7 +473,7 @@ def run_case(case):
     env.decoys = [env.plan.call(ok), env.plan.lit(0)]          # other nodes, created on other lines
     env.decoys.append(env.plan.call(ok, env.decoys[0]))
     expr, go, expect = fn(env, random.Random(case["variant"]))
-    entry, static = build_chain(case["depth"], case["files"], case["offsets"], expr, case.get("inner"))
+    entry, static = build_chain(case["depth"], [resolve_file(f) for f in case["files"]], case["offsets"], expr, case.get("inner"))
     obs = {"site": site, "phase": phase, "static": static}
     with FrameRecorder() as rec:
         run_chain(entry, env, case["threaded"])
@@ -467,7 +500,7 @@ def judge(case, obs, max_depth):
     user = obs["user"]
     if user is None or user[:len(obs["static"])] != obs["static"]:
         raise RuntimeError(f"harness: probe {user} does not start with the generated helpers {obs['static']}")
-    if case["threaded"] and len(user) != case["depth"] + (1 if inner_frame(case.get("inner")) else 0):
+    if case["threaded"] and len(user) != case["depth"] + extra_frames(case.get("inner")):
         raise RuntimeError("harness: thread stack is not exactly the helper chain")
     if err is None:
         return "run did not fail although a symbolic call raised"
@@ -700,6 +733,11 @@ def _cases(ctx):
         for depth, inner in ([(1, "genexpr"), (3, "lambda"), (4, "genexpr"), (6, "listcomp"), (2, "dictcomp")] if quick else
                              [(d, i) for d in (1, 2, 3, 4, 5, 7) for i in ("genexpr", "lambda", "listcomp", "setcomp", "dictcomp")]):
             cases.append(gen_case(rng2, name, depth, rng2.random() < 0.8, inner=inner))
+        for depth in ((1, 3) if quick else (1, 2, 3, 5)):
+            cases.append(gen_case(rng2, name, depth, True, sibling=True))
+        cases.append(gen_case(rng2, name, 1, True, inner="recursive"))          # 4 identical frames + h1: exactly the depth limit + 1
+        if not quick:
+            cases.append(gen_case(rng2, name, 3, True, inner="recursive"))
     return cases
 
 
